@@ -46,18 +46,6 @@ def eqvB (a b : Img) : Bool := a.len == b.len && (List.range a.len).all fun i =>
 def qeqB (f : Fmt) (a b : Img) : Bool :=
   (List.range (min (f.totalMap (header f b)) (2^24))).all fun i => a.get i == b.get i
 
-def verOKB (t : Trace) (k s j : Nat) : Bool :=
-  decide (j ≤ k) && (List.range (k + 1)).all fun y =>
-    !(decide (j < y) && decide (y ≤ k)) || !((t.getD (y - 1) .close).covers (vol t y).len s)
-
-def lenOKB (t : Trace) (k jl : Nat) : Bool :=
-  decide (jl ≤ k) && (List.range (k + 1)).all fun y =>
-    !(decide (jl < y) && decide (y ≤ k)) || !((t.getD (y - 1) .close).isSync)
-
-/-- the crash image with length of version `jl` and sector `s` at version `choice s` -/
-def crashImage (vols : Array Img) (jl : Nat) (choice : Nat → Nat) : Img :=
-  ⟨(vols.getD jl Img.empty).len, fun i => (vols.getD (choice (i / kSector)) Img.empty).get i⟩
-
 def sectorBytes (m : Img) (s len : Nat) : List Nat :=
   (List.range kSector).map fun o => if s * kSector + o < len then m.get (s * kSector + o) else 0
 
@@ -118,7 +106,7 @@ def step (st : St) (line : String) : St × String :=
         dedupBy (fun j => sectorBytes (vols.getD j Img.empty) s maxLen) ((List.range (k + 1)).filter (verOKB t k s))).toArray
       let total := choices.foldl (fun a c => a * c.length) lens.length
       let emit (jl : Nat) (ch : Nat → Nat) : String :=
-        let m := crashImage vols jl ch
+        let m := crashImage (fun j => vols.getD j Img.empty) jl ch
         s!"loads={b2s (loads st.fmt m)} eq={b2s (eqvB m fin)} hex={imgHex m}"
       let pick (s : Nat) (r : Nat) : Nat := let c := choices.getD s [k]; c.getD (r % c.length) k
       let oldest (s : Nat) : Nat := (choices.getD s [k]).headD k
